@@ -98,7 +98,7 @@ def er_span(o):
 def rule_add_to(chk, idx, tier):
     rid = 'C12.add-to'
     chk.rule(rid, 'add_to keeps the accepted spans pairwise disjoint and keeps exactly one covering interpretation, on every '
-                  'order type of (accepted spans, new span)', floor=20, control=True)
+                  'order type of (accepted spans, new span)', floor=8, control=True)
     er_cls = idx.cls('recognizers_text.extractor.ExtractResult')
     grid = 7 if tier == 'quick' else 8
     maxd = 2 if tier == 'quick' else 3
@@ -169,23 +169,31 @@ def rule_add_to(chk, idx, tier):
                         st['overlapping'].append((Dord, v, got))
                     elif why:
                         st['bad'].append((Dord, v, why))
-        for key in sorted(classes):
-            st = classes[key]
-            n, rels = key
-            desc = 'new span vs %d accepted: %s' % (n, ', '.join(rels) if rels else 'nothing to compare')
+        # report per relation pattern, independent of how many untouched ('apart') spans stand around and of the tier's sizes
+        fam = {}
+        for (n, rels), st in classes.items():
+            core = tuple(sorted(set(r for r in rels if r != 'apart')))
+            f = fam.setdefault(core, {'n': 0, 'bad': [], 'overlapping': []})
+            f['n'] += st['n']
+            f['bad'].extend(st['bad'][:2])
+            f['overlapping'].extend(st['overlapping'][:2])
+        for core in sorted(fam):
+            st = fam[core]
+            desc = 'new span %s' % (' and '.join({'covers': 'covers an accepted span', 'crosses': 'crosses an accepted span',
+                                                  'inside': 'lies inside an accepted span', 'equal': 'equals an accepted span'}[r]
+                                                 for r in core) if core else 'touches no accepted span')
             construct = '%s.add_to[%s]' % (k.name, desc)
             if st['overlapping']:
-                D, v, got = st['overlapping'][0]
-                chk.bad(rid, k.mod.path, construct, 'overlapping spans survive in %d of %d configurations' % (len(st['overlapping']), st['n']),
-                        '%s.add_to: when the new span %s (accepted spans: %s) two overlapping spans survive, e.g. accepted %s + new %s '
-                        '-> %s' % (k.name, 'covers one accepted span and crosses another' if 'covers' in rels and 'crosses' in rels
-                                   else 'stands in relation {%s} to the accepted spans' % ', '.join(rels), n, list(D), v, got), fn.lineno)
+                D, v, got = sorted(st['overlapping'], key=lambda t: (len(t[0]), t))[0]
+                chk.bad(rid, k.mod.path, construct, 'two overlapping spans survive',
+                        '%s.add_to: when the %s, two overlapping spans survive (every one of the %d configurations of this kind), '
+                        'e.g. accepted %s + new %s -> %s' % (k.name, desc, st['n'], list(D), v, got), fn.lineno)
             elif st['bad']:
-                D, v, why = st['bad'][0]
-                chk.bad(rid, k.mod.path, construct, 'wrong survivor in %d of %d configurations' % (len(st['bad']), st['n']),
+                D, v, why = sorted(st['bad'], key=lambda t: (len(t[0]), t))[0]
+                chk.bad(rid, k.mod.path, construct, 'wrong survivor',
                         '%s.add_to: accepted %s + new %s: %s' % (k.name, list(D), v, why), fn.lineno)
             else:
-                chk.ok(rid, k.mod.path, construct, 'disjoint and the expected survivor in all %d configurations' % st['n'], fn.lineno)
+                chk.ok(rid, k.mod.path, construct, 'pairwise disjoint, expected survivors', fn.lineno)
         chk.observe('C12.add-to: %s.add_to interpreted on %d configurations (grid %d, up to %d accepted spans, both orders)'
                     % (k.name, runs, grid, maxd))
     # positive control: an add_to that appends whatever comes
@@ -383,18 +391,25 @@ def rule_model_filter(chk, idx, tier):
                 st['bad'].append((combo, sorted(got)))
             elif not got:
                 st['bad'].append((combo, got))
-    for r in sorted(classes):
+    failing = sorted(r for r in classes if classes[r]['bad'] and r not in ('single', 'apart'))
+    for r in ('single', 'apart'):
         st = classes[r]
-        construct = 'AbstractNumberWithUnitModel.parse[second span %s the first]' % r if r != 'single' else \
-            'AbstractNumberWithUnitModel.parse[one span]'
+        construct = 'AbstractNumberWithUnitModel.parse[%s]' % ('one span' if r == 'single' else 'two spans apart')
         if st['bad']:
             combo, got = st['bad'][0]
-            chk.bad(rid, c.mod.path, construct, 'overlapping or lost entities in %d of %d configurations' % (len(st['bad']), st['n']),
-                    'AbstractNumberWithUnitModel.parse: for extractor spans %s the model returns %s - its containment filter does '
-                    'not keep the entities disjoint when the extractor hands it spans in relation "%s"' % (list(combo), got, r),
-                    fn.lineno)
+            chk.bad(rid, c.mod.path, construct, 'entities lost or duplicated',
+                    'AbstractNumberWithUnitModel.parse: for extractor spans %s the model returns %s' % (list(combo), got), fn.lineno)
         else:
-            chk.ok(rid, c.mod.path, construct, 'all %d configurations' % st['n'], fn.lineno)
+            chk.ok(rid, c.mod.path, construct, 'returned as they are', fn.lineno)
+    construct = 'AbstractNumberWithUnitModel.parse[two spans that overlap]'
+    if failing:
+        combo, got = classes[failing[0]]['bad'][0]
+        chk.bad(rid, c.mod.path, construct, 'both returned',
+                'AbstractNumberWithUnitModel.parse: when the extractor hands it two spans that overlap (relations of the second to '
+                'the first that fail: %s), both come back as entities, e.g. spans %s -> %s; the containment filter only drops an '
+                'earlier result that the new one contains' % (', '.join(failing), list(combo), got), fn.lineno)
+    else:
+        chk.ok(rid, c.mod.path, construct, 'one of them is kept', fn.lineno)
     chk.control(rid, rel((0, 3), (2, 5)) == 'crosses' and rel((0, 5), (2, 3)) == 'covers')
 
 
